@@ -6,7 +6,7 @@ use vstd::prelude::*;
 verus! {
 
 //@@ include wiringpre.rs
-impl LinkRelay {
+impl LinkRelay<()> {
 //@@ fn file=fe2o3-amqp/src/link/mod.rs impl=`impl LinkRelay<()>` name=new_sender
 //@@ param tx : LinkTx
 //@@ subst `Self::Sender` => `LinkRelay::Sender` rule=R2
@@ -20,6 +20,16 @@ impl LinkRelay {
     ensures r is Receiver && r->Receiver_tx == tx && r->Receiver_flow_state == flow_state && r->Receiver_unsettled == unsettled
         && r->Receiver_receiver_settle_mode == receiver_settle_mode                    // [C02.wiring.relay-knows-the-links-settle-mode] the relay registers deliveries for the sender's settling disposition exactly when the LINK settles second: it is given the link's own rcv-settle-mode
         && !r->Receiver_more,                                                          // [C10.wiring.relay-starts-between-deliveries]
+//@@ end
+
+//@@ fn file=fe2o3-amqp/src/link/mod.rs impl=`impl LinkRelay<()>` name=with_output_handle
+//@@ spec
+    ensures
+        self is Sender ==> r is Sender && r->Sender_tx == self->Sender_tx && r->Sender_flow_state == self->Sender_flow_state && r->Sender_unsettled == self->Sender_unsettled
+            && r->Sender_output_handle == output_handle
+            && r->Sender_receiver_settle_mode == self->Sender_receiver_settle_mode,          // [C02.wiring.relay-keeps-its-settle-mode-when-registered] registering a relay under its handle changes the handle only: a sending link's relay keeps the receiver's settle mode it was built with -- on the listener side nothing sets it afterwards, and a relay that has lost it never sends the settling echo a settle-second receiver waits for
+        self is Receiver ==> r is Receiver && r->Receiver_tx == self->Receiver_tx && r->Receiver_flow_state == self->Receiver_flow_state && r->Receiver_unsettled == self->Receiver_unsettled
+            && r->Receiver_output_handle == output_handle && r->Receiver_receiver_settle_mode == self->Receiver_receiver_settle_mode && r->Receiver_more == self->Receiver_more,   // [C11.wiring.relay-registered-as-built]
 //@@ end
 }
 
